@@ -46,6 +46,8 @@ class World:
         if qos == 'BestEffort':
             return 0
         prof = self.profile
+        if prof == 'light':
+            return r.choice([100, 250, 500, 1000, 1000, 2000] if qos == 'Guaranteed' else [1, 100, 250, 500])
         if qos == 'Guaranteed':
             if prof == 'fill':
                 return r.choice([1000, 2000, 2000, 3000, 4000, 1500, 2500, 500])
@@ -56,6 +58,8 @@ class World:
         r = self.rng
         if qos == 'BestEffort':
             return r.choice([0, 0, 128 * MiB])
+        if self.profile == 'light':
+            return r.choice([0, 64 * MiB, 128 * MiB])
         frac = r.choice([0, 0.01, 0.05, 0.2, 0.3, 0.45, 0.6, 0.8, 1.1, 1.7]) if self.profile in ('mem', 'fill') else r.choice([0, 0.01, 0.05, 0.1, 0.3, 0.6])
         return int(self.nodemem * frac)
 
@@ -201,7 +205,7 @@ class World:
                 del self.ctrs[c['id']]
                 continue
             if r.random() < perturb:
-                c['_state'] = r.choice(['created', 'running', 'stopped'])
+                c['_state'] = 'stopped' if c['_state'] == 'stopped' else r.choice([c['_state'], 'running', 'stopped'])
             cc = {k: v for k, v in c.items() if not k.startswith('_')}
             cc['state'] = c['_state']
             ctrs.append(cc)
@@ -361,7 +365,7 @@ def gen_history(rng, policy, machine, machine_path, nevents=40, profile='mixed',
         if x < reconfig:
             k = r.random()
             if k < 0.35:
-                w.emit('Reconfigure', config=cur_cfg, tag='same')
+                w.emit('Reconfigure', config='__CURRENT__', tag='same')
             elif k < 0.7:
                 bad = r.choice(ta_bad_configs(machine) if policy == 'topology-aware' else bln_bad_configs(machine))
                 w.emit('Reconfigure', config=bad[1], tag='bad:' + bad[0])
@@ -385,6 +389,8 @@ def gen_history(rng, policy, machine, machine_path, nevents=40, profile='mixed',
         x = r.random()
         npods = len(w.pods)
         target = 6 if profile != 'fill' else 10
+        if profile == 'light':
+            target = 4
         if x < 0.30 and len(live) < target or not w.pods:
             ns = None
             pod = w.new_pod()
